@@ -4,6 +4,7 @@
 
 struct GT {                       // ground truth: each link decoded on its own through the packet API
   std::vector<PCM> pcm;           // full-rate
+  std::vector<PCM> half;          // half-rate packet-level decode of each link (only when ChainOpts::half)
   std::vector<int64_t> start;     // global start position of each link
   std::vector<int64_t> len;
   int64_t total = 0;
@@ -13,7 +14,7 @@ struct GT {                       // ground truth: each link decoded on its own 
   }
 };
 
-struct ChainOpts { int maxlinks = 4; int64_t maxN = 30000; bool allow_zero = true; int maxch = 6; bool comments = true; bool multiplex = false; };
+struct ChainOpts { int maxlinks = 4; int64_t maxN = 30000; bool allow_zero = true; int maxch = 6; bool comments = true; bool multiplex = false; bool half = false; bool even_interior = false; };
 
 static const long kVfRates[] = {44100, 8000, 22050, 16000, 11025, 48000, 32000, 12000, 24000, 96000};
 
@@ -65,12 +66,18 @@ static inline bool gen_chain(Tape &t, Report &r, const ChainOpts &o, Chain &c, G
     if (o.comments) { int nc = t.below(4); for (int j = 0; j < nc; j++) m.comments.push_back(sfmt("TAG%d=link%d value %u", j, i, t.below(1000))); }
     if (e.start(s, &m.comments) != 0) return r.harness("encoder start failed: %s", e.err.c_str());
     int64_t N = gen_link_N(t, s.bs0, s.bs1, o);
+    if (o.even_interior && i + 1 < k) N &= ~(int64_t)1;
     std::vector<int> pieces; if (N) pieces.push_back((int)N); std::vector<char> da; std::string err;
     if (enc_feed(e, m.cfg.channels, m.sig, N, pieces, da, s, err) != 0) return r.harness("encode failed: %s", err.c_str());
     m.lay = Layout::gen(t); lays.push_back(m.lay);
     DecodeResult d;
     if (!decode_packets(s, d)) return r.harness("link %d does not decode at packet level", i);
     if (d.total() != N) return r.harness("link %d: packet-level decode gives %lld samples for N=%lld (C04 territory)", i, (long long)d.total(), (long long)N);
+    if (o.half) {
+      DecodeResult dh;
+      if (!decode_packets(s, dh, true)) return r.harness("link %d does not decode at half rate at packet level", i);
+      g.half.push_back(dh.pcm);
+    }
     g.pcm.push_back(d.pcm); g.start.push_back(g.total); g.len.push_back(N); g.total += N;
     desc += sfmt("L%d{ch=%d rate=%ld q=%.1f m=%d bs=%d/%d N=%lld pk=%zu ser=%d sig=%d/%g %s} ", i, m.cfg.channels, m.cfg.rate, m.cfg.quality, m.cfg.mode, s.bs0, s.bs1, (long long)N, s.audio.size(), s.serial, m.sig.kind, m.sig.amp, m.lay.desc().c_str());
     c.links.push_back(std::move(s)); meta.push_back(std::move(m));
@@ -87,7 +94,24 @@ static inline bool is_last_page_of_link(const Chain &c, size_t pi) { return pi +
 static inline long vf_budget(const Chain &c) { return std::max<long>(4096, 64 * (long)(c.bytes.size() / 2048 + 1) * ((long)c.links.size() + 1)); }
 
 // Compare n samples returned by a read with ground truth at global position pos (must lie within one link).
-static inline bool gt_compare(const GT &g, int64_t pos, float **pcm, long n, int bitstream, int channels_reported, std::string &why) {
+static inline bool gt_compare(const GT &g, int64_t pos, float **pcm, long n, int bitstream, int channels_reported, std::string &why, int hs = 0) {
+  if (hs) {   // half rate: position pos is on link l's grid start+2k; n samples are half[l][k..k+n)
+    int l = g.link_of(pos);
+    if (l < 0) { why = sfmt("half-rate read returned %ld samples at position %lld, at or beyond the end (total %lld)", n, (long long)pos, (long long)g.total); return false; }
+    if (bitstream != l) { why = sfmt("*bitstream=%d but position %lld lies in link %d", bitstream, (long long)pos, l); return false; }
+    if (channels_reported != (int)g.half[l].size()) { why = sfmt("ov_info(-1)->channels=%d, link %d has %zu", channels_reported, l, g.half[l].size()); return false; }
+    int64_t off = pos - g.start[l];
+    if (off & 1) { why = sfmt("half-rate position %lld is off link %d's sample grid (link starts at %lld)", (long long)pos, l, (long long)g.start[l]); return false; }
+    off >>= 1; int64_t hl = g.half[l].empty() ? 0 : (int64_t)g.half[l][0].size();
+    if (off + n > hl) { why = sfmt("half-rate read of %ld samples at %lld runs past the end of link %d (%lld half-rate samples)", n, (long long)pos, l, (long long)hl); return false; }
+    for (size_t ch = 0; ch < g.half[l].size(); ch++)
+      if (memcmp(pcm[ch], g.half[l][ch].data() + off, (size_t)n * sizeof(float))) {
+        long i = 0; while (i < n && !memcmp(&pcm[ch][i], &g.half[l][ch][off + i], sizeof(float))) i++;
+        why = sfmt("half-rate sample mismatch at global %lld (link %d half-rate index %lld ch %zu): got %.9g want %.9g", (long long)(pos + 2 * i), l, (long long)(off + i), ch, pcm[ch][i], g.half[l][ch][off + i]);
+        return false;
+      }
+    return true;
+  }
   int l = g.link_of(pos);
   if (l < 0) { why = sfmt("read returned %ld samples at position %lld, at or beyond the end (total %lld)", n, (long long)pos, (long long)g.total); return false; }
   if (bitstream != l) { why = sfmt("*bitstream=%d but position %lld lies in link %d", bitstream, (long long)pos, l); return false; }
